@@ -124,6 +124,8 @@ namespace hv
         std::map<long long, std::map<long long, long long>> src_script;                 // id -> offset -> value
         std::map<long long, std::map<long long, std::vector<TimerOp>>> timer_script;    // id -> k (0=start, n=n-th eval) -> ops
         FaultPlan faults;
+        long long lift_id[4]{0, 0, 0, 0};                                               // slot -> node id of the lifted functions (vocab LiftQ<K>)
+        long long cycle_off{0};                                                         // engine time of the cycle in progress (offset), for code that has no DateTime at hand
     };
     extern thread_local Ctx *g_ctx;
     inline Ctx &ctx() { return *g_ctx; }
